@@ -36,7 +36,7 @@ def ops_strategy(with_gumbel_opt=True, with_disable=True):
     single = st.one_of(*opts).map(lambda o: [list(o)])
     op = st.one_of(
         st.tuples(st.just('coef'), st.integers(0, 10 ** 6)),
-        st.tuples(st.just('opt'), st.one_of(single, single, single, multi)),
+        st.tuples(st.just('opt'), st.one_of(single, single, multi)),
         st.tuples(st.just('train'), st.none()),
         st.tuples(st.just('eval'), st.none()),
         st.tuples(st.just('forward'), st.integers(0, 100)),
@@ -87,8 +87,9 @@ def check_theta(res, where, theta, alpha, state, prev_theta, n_checked):
         if state['hard'] and not is_onehot:
             res.bad('gumbel-hard-not-one-hot', where=where, theta=th.tolist()[:8])
         if not state['hard'] and alpha.shape[0] > 1 and torch.allclose(th, soft, atol=1e-6) \
-                and state['temperature'] < 19:
+                and state['temperature'] < 19 and float(soft.max(dim=0).values.min()) < 0.999:
             # Gumbel noise makes a coincidence with the noise-free softmax practically impossible
+            # (unless the softmax is saturated: then the noise cannot move it by 1e-6)
             res.bad('gumbel-selected-but-plain-softmax-sampled', where=where, state=_pub(state))
     else:
         # plain soft sampling: exactly the tempered softmax
@@ -190,6 +191,27 @@ def oracle_qtz(case) -> Result:
         res.ev('several-options-in-one-call')
     res.obs = {'forwards_checked': n_checked[0], 'final_state': _pub(state)}
     return res
+
+
+def qtz_grid(tier):
+    """EVERY single update_softmax_options call on one selector: {per-layer, per-channel} x every
+    initial (hard, gumbel, disable) x every subset of the four options with two values each
+    (3^4 = 81 calls, the empty one included) x the mode of the following forwards."""
+    import itertools
+    vals = {'temperature': (None, 0.5, 2.0), 'hard': (None, False, True),
+            'gumbel': (None, False, True), 'disable': (None, False, True)}
+    names = list(vals)
+    for kind in ('layer', 'channel'):
+        for h0, g0, d0 in itertools.product((False, True), repeat=3):
+            for combo in itertools.product(*[vals[n] for n in names]):
+                call = [[n, v] for n, v in zip(names, combo) if v is not None]
+                for mode in ('train', 'eval'):
+                    ops = [['coef', 11], ['forward', 1]]
+                    ops.append(['opt', call] if call else ['opt', []])
+                    ops += [[mode, None], ['forward', 2], ['coef', 12], ['forward', 3]]
+                    yield {'kind': kind, 'prec': [2, 4, 8], 'cols': 3,
+                           'init': {'temperature': 1.0, 'hard': h0, 'gumbel': g0, 'disable': d0},
+                           'ops': ops}
 
 
 # ----------------------------------------------------------------------------------------
@@ -434,6 +456,11 @@ CHECK = Check(
     parts=[
         Part('mps-selector', oracle_qtz, strategy=qtz_cases(),
              budget={'quick': 800, 'thorough': 5000}, shards={'quick': 1, 'thorough': 16}),
+        Part('mps-selector-call-grid', oracle_qtz, enumerate=qtz_grid, enum_parallel=True,
+             shards={'quick': 4, 'thorough': 8},
+             exhaustive_note='ALL 2 x 8 x 81 x 2 = 2592 combinations of selector kind x initial '
+                             'flags x one update_softmax_options call (every subset of the four '
+                             'options, two values each) x train/eval'),
         Part('sn-combiner', oracle_comb, strategy=comb_cases(),
              budget={'quick': 500, 'thorough': 3000}, shards={'quick': 1, 'thorough': 16}),
         Part('mps-model', oracle_mps_model, strategy=mps_model_cases(),
